@@ -30,6 +30,17 @@
 (*   slash P/ | upper (first letter upper-cased) | ext Px | pctslash (a    *)
 (*   slash written %2F) | sub P/extra                                      *)
 (*     -> these address no registered endpoint ("unknown")                 *)
+(*   sfxpng P.png | sfxico P.ico | sublogo P/logo.png | subhealth P/health *)
+(*     (spellings that END like an exempt endpoint or a static asset)      *)
+(*     -> unknown, except below a subtree pattern whose handler dispatches *)
+(*        by prefix (/agents/{id}/..., /debug/pprof/...): there they still *)
+(*        address that non-exempt handler                                  *)
+(*                                                                         *)
+(* The server is long-lived: a request may follow another one on the same  *)
+(* server.  The oracle is history-free (every request is judged alone), so *)
+(* SEQ records pair every priming request (each token presentation, on an  *)
+(* exempt and on a non-exempt endpoint) with every probe request; the      *)
+(* harness sends both to one fresh server and judges the probe.            *)
 (***************************************************************************)
 EXTENDS Naturals, Sequences, FiniteSets, TLC, Json
 
@@ -65,15 +76,17 @@ Routes == {
 
 Addressing == {"exact", "query", "pct", "dot", "dotdot", "dslash", "cross"}   \* spellings that address the endpoint
 Unknowns   == {"slash", "upper", "ext", "pctslash", "sub"}
-Variants   == Addressing \cup Unknowns
+Suffixed   == {"sfxpng", "sfxico", "sublogo", "subhealth"}
+Variants   == Addressing \cup Unknowns \cup Suffixed
 Cleaned    == {"dot", "dotdot", "dslash", "cross"}            \* ServeMux answers these with a redirect to the clean path
 \* spellings that exist for a route
 HasVariant(r, v) ==
   /\ (r.id = "root") => v \in {"exact", "query", "dot", "dslash", "ext", "cross"}
+  /\ (r.id = "agents_") => v \notin {"sublogo", "subhealth"}   \* would be "/agents//health"
   /\ (v = "slash") => ~r.sub \/ r.id \notin {"agents_", "pprof_index"}
   /\ (r.id \in {"agents_", "pprof_index"}) => v # "slash"
   /\ r.sub => v \notin {"slash", "ext", "sub"}          \* these stay inside the subtree handler
-  /\ (r.id = "agents") => v \notin {"slash", "sub"}     \* /agents/... is the subtree pattern /agents/
+  /\ (r.id = "agents") => v \notin {"slash", "sub", "sublogo", "subhealth"}   \* /agents/... is the subtree /agents/
 
 Methods == IF Tiny THEN {"GET"} ELSE IF Quick THEN {"GET", "POST", "CONNECT"} ELSE {"GET", "POST", "DELETE", "CONNECT"}
 Pres == {"none", "hvalid", "hinvalid", "qvalid", "qinvalid", "basic", "empty", "both"}
@@ -96,7 +109,7 @@ Case(r, v, m, p, t, f) == [r |-> r.id, grp |-> r.grp, exempt |-> r.exempt, sub |
 QuickOK(vv, m, p, f) ==
   /\ (f \in {AllOn, AllOff} \/ (vv = "exact" /\ p \in {"none", "hvalid"}))
   /\ (m = "CONNECT" => vv \in Cleaned \cup {"exact"})
-  /\ (m = "POST" => vv \in {"exact", "cross", "pct"})
+  /\ (m = "POST" => vv \in {"exact", "cross", "pct"} \cup Suffixed)
   /\ (p \in {"empty", "both"} => vv = "exact")
 
 CasesFor(r) ==
@@ -111,7 +124,8 @@ CasesFor(r) ==
 Cases == UNION {CasesFor(r) : r \in Routes}
 
 (* ---- oracle --------------------------------------------------------------------*)
-Addresses(c)  == c.v \in Addressing                 \* the request addresses endpoint c.r
+\* the request addresses endpoint c.r (or, for the suffixed spellings, the prefix-dispatching handler c.r lives in)
+Addresses(c)  == c.v \in Addressing \/ (c.v \in Suffixed /\ c.sub)
 Canonical(c)  == c.v \in {"exact", "query"}
 Authorised(c) == ~c.tok \/ ValidPres(c.p)
 Unclear(c)    == c.tok /\ Ambiguous(c.p)
@@ -155,6 +169,11 @@ ImplMeetsOracle(c) ==
   /\ (ActLimit(c) = "none") => ImplFinal(c) # "handler" \/ (Impl(c) = "redirect" /\ Authorised(c) /\ ~Must404(c))
   /\ (ActLimit(c) = "probe") => (Impl(c) = "handler" => c.exempt)
 
+(* ---- request sequences on one server -------------------------------------------------*)
+Primes == {Case(r, "exact", "GET", p, TRUE, AllOn) : r \in {rr \in Routes : rr.id \in {"health", "routes_advertise"}}, p \in Pres}
+IsProbe(c) == /\ c.tok /\ c.fl = AllOn /\ c.v = "exact" /\ c.m \in {"GET", "POST"}
+              /\ c.r \in {"routes_advertise", "api_nodes", "agent_id", "healthz", "pprof_cmdline"}
+
 (* ---- enumeration ---------------------------------------------------------------------*)
 VARIABLE v
 Init == v \in Cases
@@ -163,4 +182,7 @@ Holds == ImplMeetsOracle(v)
 EmitVec == PrintT("VEC " \o ToJson([c |-> v, impl |-> Impl(v), final |-> ImplFinal(v),
                                     o |-> [must401 |-> Must401(v), not401 |-> Not401(v), must404 |-> Must404(v),
                                            act |-> ActLimit(v)]]))
+           /\ (IsProbe(v) => \A pc \in Primes : PrintT("SEQ " \o ToJson([prime |-> pc, c |-> v, impl |-> Impl(v),
+                   final |-> ImplFinal(v),
+                   o |-> [must401 |-> Must401(v), not401 |-> Not401(v), must404 |-> Must404(v), act |-> ActLimit(v)]])))
 =============================================================================
